@@ -59,13 +59,14 @@ def run(rep, tier, seed):
                 for i in range(nsh):
                     items.append((g, lambda r, g_, t_, s_, fn=fn, i=i, nsh=nsh: check_derived(r, g_, t_, s_, only=fn, shard=(i, nsh))))
     rep.parallel(items, lambda r, it: it[1](r, it[0], tier, seed))
-    rep.not_run.append("Jacobians of rplus/lplus/rminus/lminus/between by direct differentiation for SGal3 (SE_2_3: thorough tier only) "
-                       "(two symbolic 10-DoF elements through log: too slow); the generic layer is the same code for every group (C04 rule) and is "
-                       "differentiated here for SO2, SE2, SO3, SE3, Rn (quick) and SE_2_3 (thorough); rplus/rminus additionally through dual numbers (C12)")
+    rep.not_run.append("Jacobians of rplus/lplus/rminus/lminus/between by direct differentiation for SGal3: its rjacinv()/ljacinv() are numeric "
+                       "inverses (A-EIGEN-INV stubs), and the chain-rule obligations of rminus/lminus combine two different stubbed inverses, "
+                       "which the normal form cannot relate; the generic layer is the same code for every group (C04 rule) and is differentiated "
+                       "here for SO2, SE2, SO3, SE3, SE_2_3, Rn; rplus/rminus additionally through dual numbers (C12)")
 
 
-DERIVED_QUICK = ["SO2", "SE2", "SO3", "R3", "SE3"]
-DERIVED_THOROUGH = ["SE_2_3"]
+DERIVED_QUICK = ["SO2", "SE2", "SO3", "R3", "SE3", "SE_2_3"]
+DERIVED_THOROUGH = []
 
 
 def check_derived(rep, g, tier, seed, only=None, shard=(0, 1)):
